@@ -124,10 +124,14 @@ def pow2ceil(m):
 
 
 # ------------------------------------------------------------------------------------------ oracle
-def target(case, op, mem, structs):
+def op_chip(case, i):
+    return tuple(case["chips"][i]) if case.get("chips") else tuple(case["chip"])
+
+
+def target(case, op, mem, structs, chip=None):
     """What the call is about, from the inputs alone: ("read", chip, address, n, decode) or
     ("write", chip, address, bytes) or ("error", documented ValueError number)."""
-    chip = tuple(case["chip"])
+    chip = tuple(case["chip"]) if chip is None else tuple(chip)
     k = op[0]
     if k in ("read", "conn_read"):
         return ("read", chip, op[2], op[3], None)
@@ -206,12 +210,12 @@ def canon_exc(outcome):
     return ["other"]
 
 
-def oracle(case, op, res, mem, structs):
+def oracle(case, op, res, mem, structs, chip=None):
     """Decide the sentences of C07 on what the real code did for one call.  `mem` is the oracle's memory
     before the call; it is updated to what the memory must be afterwards.  -> [(key, what), ...]"""
     bad = []
     buffer = case["buffer"]
-    tgt = target(case, op, mem, structs)
+    tgt = target(case, op, mem, structs, chip)
     outcome = res["outcome"]
     # every individual command: within the advertised buffer, unit only when address and length allow it
     for t in res["trace"]:
@@ -356,14 +360,14 @@ def coq_probes(ps):
 HEADER = """From Coq Require Import ZArith List String. Import ListNotations. Open Scope Z_scope.
 Require Import Rig.Generated.GenMemOps Rig.Model.Base Rig.Model.Machine Rig.Model.MemOps.
 Definition short (l : list Z) : list Z := if zlen l <=? 96 then l else [].
-Fixpoint run_ops (E : env) (M : machine) (c : chip) (ops : list op) (ps : list (chip * Z * Z)) (full : bool) :=
+Fixpoint run_ops (E : env) (M : machine) (ops : list (chip * op)) (ps : list (chip * Z * Z)) (full : bool) :=
   match ops with
   | [] => []
-  | o :: rest =>
+  | (c, o) :: rest =>
       match run_op E M c o with
       | Ok (tr, out, M') =>
           (0, 0, zlen tr, trace_digest tr, zlen out, digest out, short out, probe M' ps,
-           (if full then map request_fields tr else [])) :: run_ops E M' c rest ps full
+           (if full then map request_fields tr else [])) :: run_ops E M' rest ps full
       | Failed k => [(1, k, 0, 0, 0, 0, [], 0, [])]
       | OtherError => [(2, 0, 0, 0, 0, 0, [], 0, [])]
       | OutOfFuel => [(3, 0, 0, 0, 0, 0, [], 0, [])]
@@ -376,10 +380,11 @@ Definition validate (buffer w h seed : Z) over (tr : list (request * reply)) (ps
 
 
 def coq_case(case, structs, probes, full):
-    return "run_ops (mk_env %s (torus_nbr %s %s)) (pattern_machine %s %s) %s %s %s %s" % (
+    return "run_ops (mk_env %s (torus_nbr %s %s)) (pattern_machine %s %s) %s %s %s" % (
         zlit(case["buffer"]), zlit(case["dims"][0]), zlit(case["dims"][1]), zlit(case["seed"]),
-        coq_over(case.get("over", [])), coq_chip(case["chip"]),
-        vlist(coq_op(o, structs) for o in case["ops"]), coq_probes(probes), "true" if full else "false")
+        coq_over(case.get("over", [])),
+        vlist("(%s, %s)" % (coq_chip(op_chip(case, i)), coq_op(o, structs)) for i, o in enumerate(case["ops"])),
+        coq_probes(probes), "true" if full else "false")
 
 
 def coq_trace(case, results, probes):
@@ -427,14 +432,14 @@ def probe_windows(case, structs):
     surroundings of every written range on the addressed chip, on one neighbour and on one unrelated chip (all
     six neighbours for a link call); a small window for a read (it leaves the memory alone).  (The oracle
     judges the whole machine through the simulator's sparse store; this is the model-vs-code comparison.)"""
-    chip = tuple(case["chip"])
-    nbrs = sorted(set(neighbour(chip, l, case["dims"]) for l in range(6)) - {chip})
-    far = ((chip[0] + 3) % case["dims"][0], (chip[1] + 5) % case["dims"][1])
     ps = []
     mem = Mem(case)
-    for op in case["ops"][:3]:
+    for i, op in enumerate(case["ops"][:4]):
+        chip = op_chip(case, i)
+        nbrs = sorted(set(neighbour(chip, l, case["dims"]) for l in range(6)) - {chip})
+        far = ((chip[0] + 3) % case["dims"][0], (chip[1] + 5) % case["dims"][1])
         try:
-            t = target(case, op, mem, structs)
+            t = target(case, op, mem, structs, chip)
         except Exception:
             continue
         if t[0] == "read":
@@ -444,8 +449,10 @@ def probe_windows(case, structs):
             lo = max(0, a - 9)
             span = a - lo + n + 9
             chips = [chip] + (nbrs if "link" in op[0] else nbrs[:1]) + ([far] if far != chip and far not in nbrs else [])
-            for i, c in enumerate(chips):
-                if i == 0 or tuple(c) == tuple(t[1]) or n <= 64:
+            if case.get("chips"):           # a history over several chips: the same window on every chip it uses
+                chips += [tuple(c) for c in case["chips"] if tuple(c) not in chips]
+            for j, c in enumerate(chips):
+                if j == 0 or tuple(c) == tuple(t[1]) or n <= 64:
                     ps.append((c, lo, span))
             mem.store(t[1], t[2], t[3])
     return ps
@@ -670,6 +677,62 @@ def gen_faulted(rng, structs, buffers):
     return c
 
 
+def gen_history(rng, structs, faulted=False):
+    """one controller used for a sequence of calls on several chips whose sv.vcpu_base differ (as on a real
+    machine, where every chip places its per-core blocks itself): per-core fields, struct fields, plain reads
+    and writes interleaved.  Anything the controller remembers from one chip and applies to another shows."""
+    B = rng.choice([4, 5, 8, 16, 248, 256])
+    dims = rng.choice([[8, 8], [2, 2], [5, 3]])
+    c = base_case(rng, B, rng.choice([1, 2, 8]), [], tag="history", dims=dims)
+    nchips = rng.choice([2, 2, 3, 4])
+    chips = []
+    while len(chips) < nchips:
+        xy = rand_chip(rng, dims)
+        if xy not in chips:
+            chips.append(xy)
+    bases, over = {}, []
+    for xy in chips:
+        vb = rng.choice([0x67800000, 0xe5007000, 0x60000000]) + 4 * rng.randrange(1, 1 << 16) + 0x4400 * len(bases)
+        bases[tuple(xy)] = vb
+    ops, where = [], []
+    ints = [f for f, v in structs["vcpu"][2].items() if v[3] == "int" and v[2] == 1]
+    n = rng.choice([3, 4, 5, 6])
+    for i in range(n):
+        xy = chips[i % nchips] if i < nchips else rng.choice(chips)      # visits every chip, in turn first
+        k = rng.choice(["read_vcpu", "write_vcpu", "write_vcpu", "read_vcpu", "read_struct", "write_struct",
+                        "read", "write"])
+        p = rng.randint(0, 17)
+        if k == "read_vcpu":
+            ops.append([k, p, rng.choice(ints + ["app_name"])])
+        elif k == "write_vcpu":
+            f = rng.choice(ints + ["app_name"])
+            unit = structs["vcpu"][2][f][1]
+            ops.append([k, p, f, rng.choice(["", "app", "my_app-2"]) if f == "app_name" else rng.randrange(1 << (8 * unit))])
+        elif k == "read_struct":
+            ops.append([k, rng.choice([0, 1]), rng.choice(sorted(structs["sv"][2]))])
+        elif k == "write_struct":
+            f = rng.choice(sorted(set(structs["sv"][2]) - {"vcpu_base"}))
+            off, unit, count, kind = structs["sv"][2][f]
+            ops.append([k, rng.choice([0, 1]), f, sv_value(rng, unit, count)])
+        elif k == "read":
+            ops.append([k, p, bases[tuple(xy)] + rng.randrange(0, 128 * 18), rng.randint(0, 2 * B + 3)])
+        else:
+            ops.append([k, p, bases[tuple(xy)] + 128 * 18 + rng.randrange(0, 64),
+                        ["pat", rng.randrange(1000), rng.randint(0, 2 * B + 3)]])
+        where.append(xy)
+    for xy in chips:         # text in the application-name slot of every core a per-core call names on that chip
+        cores = sorted(set(o[1] for o, w in zip(ops, where) if w == xy and o[0] in ("read_vcpu", "write_vcpu")))
+        over += vcpu_over(rng, xy, structs, bases[tuple(xy)], cores)
+    c["over"] = over
+    c["ops"], c["chips"], c["chip"] = ops, where, where[0]
+    if faulted:
+        T = c["timeout"] = rng.choice([4, 10])
+        c["n_tries"] = 10
+        mood = rng.choice(["lossy", "dup", "busy"])
+        c["plan"] = dict((str(k), gen_outcome(rng, T, mood)) for k in range(40 + 12 * n * (2 + (2 * B + 3) // B)))
+    return c
+
+
 def gen_malformed(rng):
     B = rng.choice([4, 16, 256])
     pool = [
@@ -743,6 +806,7 @@ def run(chk, args):
         singles += gen_links(rng, [4, 5, 7, 8, 16, 18, 248, 256] if quick else
                              [4, 5, 6, 7, 8, 9, 12, 16, 18, 24, 56, 120, 243, 248, 255, 256, 300])
         singles += [gen_faulted(rng, structs, [4, 5, 8, 16, 24]) for _ in range(260 if quick else 3000)]
+        singles += [gen_history(rng, structs, faulted=(i % 4 == 3)) for i in range(240 if quick else 3000)]
         singles += [gen_malformed(rng) for _ in range(40 if quick else 200)]
         singles += [gen_nonterm(rng) for _ in range(3)]
         if not quick:
@@ -790,14 +854,14 @@ def run(chk, args):
                 continue
             for op in c["ops"]:
                 chk.count("op:" + op[0].replace("conn_", ""))
-            chk.note_case([c[k] for k in ("buffer", "window", "seed", "over", "chip", "ops", "plan", "dims")],
+            chk.note_case([c.get(k) for k in ("buffer", "window", "seed", "over", "chip", "chips", "ops", "plan", "dims")],
                           c["kind"] == "valid" and nontrivial(c, res))
             if c["kind"] != "valid":
                 continue
             mem = Mem(c)
-            for op, r in zip(c["ops"], res):
+            for i, (op, r) in enumerate(zip(c["ops"], res)):
                 chk.count("outcome:" + (r["outcome"][0] if r["outcome"][0] != "exc" else r["outcome"][1]))
-                verdicts = oracle(c, op, r, mem, structs)
+                verdicts = oracle(c, op, r, mem, structs, op_chip(c, i))
                 for key, what in verdicts:
                     if key not in seen_keys or len(chk.failing) < 10:
                         chk.fail_input(key, what, dict(case=c, op=op, observed=dict(outcome=r["outcome"], trace=r["trace"][:12])))
@@ -888,7 +952,8 @@ def run(chk, args):
         "every sv field read / written; every vcpu field on 3 cores; fills (sizes 0..40 + large, 4 alignments, both "
         "branches); link reads/writes (lengths 0..3*word+8); random faulted runs (request lost, reply lost, delayed, "
         "duplicated, retryable return codes; 1-3 calls per run); a malformed stream (out-of-range arguments, unknown "
-        "fields, misaligned link accesses: outcome class only) and buffer sizes < 4 for the link functions (non-termination). "
+        "fields, misaligned link accesses: outcome class only); histories: one controller object used for 3-6 calls on 2-4 "
+        "chips whose sv.vcpu_base differ (per-core fields, struct fields, reads, writes interleaved; every 4th faulted); buffer sizes < 4 for the link functions (non-termination). "
         "Non-trivial = valid case with >= 2 commands, or a non-word command, or a fill/link command, or a faulted run; "
         "distinct by hash of (buffer, window, initial memory, chip, calls, fault plan)")
 
